@@ -126,7 +126,10 @@ struct keyset {
         uint8_t xk2[16] __attribute__((aligned(16))), xk3[16] __attribute__((aligned(16)));
         uint8_t ipad[7][128] __attribute__((aligned(64))), opad[7][128] __attribute__((aligned(64)));
         uint32_t sm4_e[32] __attribute__((aligned(16))), sm4_d[32] __attribute__((aligned(16)));
-        uint8_t *snow3g, *kas8, *kas9;
+        snow3g_key_schedule_t snow3g_s __attribute__((aligned(64)));
+        kasumi_key_sched_t kas8_s __attribute__((aligned(64))), kas9_s __attribute__((aligned(64)));
+        uint8_t *snow3g, *kas8, *kas9; /* point at the members above */
+        int placed; /* storage not owned */
         uint8_t zero16[16] __attribute__((aligned(16)));
         int hmac_klen;
 };
@@ -137,11 +140,22 @@ keyset_raw(const keyset_t *k)
 {
         return k->raw;
 }
+size_t
+keyset_size(void)
+{
+        return (sizeof(keyset_t) + 63) & ~(size_t) 63;
+}
 keyset_t *
 keyset_new(IMB_MGR *m, int keyid)
 {
-        keyset_t *k = aligned_alloc(64, (sizeof *k + 63) & ~(size_t) 63);
+        return keyset_new_at(m, keyid, NULL);
+}
+keyset_t *
+keyset_new_at(IMB_MGR *m, int keyid, void *mem)
+{
+        keyset_t *k = mem ? mem : aligned_alloc(64, keyset_size());
         memset(k, 0, sizeof *k);
+        k->placed = mem != NULL;
         if (keyid >= 1000) { /* structured keys */
                 int s = keyid - 1000;
                 if (s == 0)
@@ -177,9 +191,11 @@ keyset_new(IMB_MGR *m, int keyid)
         for (int i = 0; i < 7; i++)
                 imb_hmac_ipad_opad(m, hh[i], k->raw, (size_t) k->hmac_klen, k->ipad[i], k->opad[i]);
         IMB_SM4_KEYEXP(m, k->raw, k->sm4_e, k->sm4_d);
-        k->snow3g = aligned_alloc(64, (IMB_SNOW3G_KEY_SCHED_SIZE(m) + 63) & ~(size_t) 63);
-        k->kas8 = aligned_alloc(64, (IMB_KASUMI_KEY_SCHED_SIZE(m) + 63) & ~(size_t) 63);
-        k->kas9 = aligned_alloc(64, (IMB_KASUMI_KEY_SCHED_SIZE(m) + 63) & ~(size_t) 63);
+        if (IMB_SNOW3G_KEY_SCHED_SIZE(m) > sizeof k->snow3g_s || IMB_KASUMI_KEY_SCHED_SIZE(m) > sizeof k->kas8_s)
+                DIE("key schedule larger than its public type");
+        k->snow3g = (uint8_t *) &k->snow3g_s;
+        k->kas8 = (uint8_t *) &k->kas8_s;
+        k->kas9 = (uint8_t *) &k->kas9_s;
         IMB_SNOW3G_INIT_KEY_SCHED(m, k->raw, (snow3g_key_schedule_t *) k->snow3g);
         IMB_KASUMI_INIT_F8_KEY_SCHED(m, k->raw, (kasumi_key_sched_t *) k->kas8);
         IMB_KASUMI_INIT_F9_KEY_SCHED(m, k->raw, (kasumi_key_sched_t *) k->kas9);
@@ -225,11 +241,8 @@ keyset_pattern(keyset_t *k, uint32_t magic)
 void
 keyset_free(keyset_t *k)
 {
-        if (!k)
+        if (!k || k->placed)
                 return;
-        free(k->snow3g);
-        free(k->kas8);
-        free(k->kas9);
         free(k);
 }
 
